@@ -359,9 +359,17 @@ def real_store(scratch, value, group_name):
         with h5py.File(fn, 'r') as f:
             root = f['Sub'] if group_name is None else f[group_name]
             tree = read_node(root)
-            loaded = real_load(root)
+            try:
+                loaded = real_load(root)
+            except Exception as e:  # noqa  the repo's own decoder cannot read what the repo's writer wrote
+                loaded = ReadError(e)
     scratch.remove(fn)
     return err, tree, loaded
+
+
+class ReadError:
+    def __init__(self, e):
+        self.e = e
 
 
 def err_kind(e):
@@ -454,6 +462,9 @@ def gen_clean_strs(rng):
         out[int(rng.integers(n))] = ''.join(ASCII[int(rng.integers(len(ASCII)))] for _ in range(int(rng.integers(63, 67))))
     if rng.random() < 0.1:      # 64 bytes reached by multi-byte characters
         out[int(rng.integers(n))] = 'é' * int(rng.integers(31, 34))
+    if rng.random() < 0.15:     # long non-ASCII element: byte length > character length, beyond the default width
+        pool = 'αβγδεζηθλμπσφωéèüñ'
+        out[int(rng.integers(n))] = ''.join(pool[int(rng.integers(len(pool)))] for _ in range(int(rng.integers(33, 90))))
     return out
 
 
@@ -541,12 +552,44 @@ def gen_dict(rng, depth, cls):
     return {gen_key(rng, used): gen_value(rng, depth, cls) for _ in range(n)}
 
 
-def gen_k3(rng):
+GREEK = 'αβγδεζηθικλμνξοπρστυφχψωΑΒΓΔΩ'
+ACCENT = 'éèêëàâäùûüîïôöçñÉÈÀÜß'
+K3_KINDS = ['long', 'nonascii', 'both', 'tuple-long', 'greek-bytes>64>=chars', 'greek-chars>64', 'accents-mixed-long',
+            'cjk-bytes>64>=chars', 'emoji-long', 'exactly-64-bytes-multibyte']
+
+
+def gen_k3(rng, k=None):
+    """string arrays beyond 64 bytes / beyond ASCII, by fixed quota: every kind of K3_KINDS in turn; long
+    non-ASCII elements (byte length > character length) always sit next to short ones"""
     d = gen_dict(rng, 1, 'wf')
     used = set(d)
-    kind = ['long', 'nonascii', 'both', 'tuple-long'][int(rng.integers(4))]
+    kind = K3_KINDS[int(rng.integers(len(K3_KINDS))) if k is None else k % len(K3_KINDS)]
     strs = gen_clean_strs(rng)
     i = int(rng.integers(len(strs)))
+
+    def draw(pool, n):
+        return ''.join(pool[int(rng.integers(len(pool)))] for _ in range(n))
+    special = None
+    if kind == 'greek-bytes>64>=chars':
+        special = draw(GREEK, int(rng.integers(33, 65)))                 # 66..128 bytes, at most 64 characters
+    elif kind == 'greek-chars>64':
+        special = draw(GREEK + ' ', int(rng.integers(65, 140)))
+    elif kind == 'accents-mixed-long':
+        special = draw(ACCENT + ASCII[1:], int(rng.integers(50, 120)))
+        special = special[:-1] + 'é'
+        if len(special.encode('utf-8')) <= 64:
+            special += draw(ACCENT, 40)
+    elif kind == 'cjk-bytes>64>=chars':
+        special = draw('中文字符串測試', int(rng.integers(22, 60)))       # 3 bytes per character
+    elif kind == 'emoji-long':
+        special = draw('\U0001F600\U0001F680\U0001F30D', int(rng.integers(17, 40)))   # 4 bytes per character
+    elif kind == 'exactly-64-bytes-multibyte':
+        special = draw(GREEK, 32)
+    if special is not None:
+        strs = [draw(ASCII[1:] + 'éα', int(rng.integers(1, 20))) for _ in range(int(rng.integers(1, 4)))]   # short neighbours
+        strs.insert(int(rng.integers(len(strs) + 1)), special)
+        d[gen_key(rng, used)] = tuple(strs) if rng.random() < 0.2 else strs
+        return d
     if kind in ('long', 'both', 'tuple-long'):
         strs[i] = ''.join(ASCII[int(rng.integers(len(ASCII)))] for _ in range(int(rng.integers(65, 130))))
     if kind in ('nonascii', 'both'):
@@ -594,6 +637,22 @@ def gen_malformed(rng):
 
 
 # ----------------------------------------------------------------------------------------------- dict stream
+def _guard(ctx, stream, case, fn, *a, **kw):
+    """no input inside the quantifier may kill the check: an exception raised by (or while using the results of) the
+    real code is a violation with a key; only driver/infrastructure errors pass through"""
+    import traceback
+    try:
+        return fn(*a, **kw)
+    except (C.InfraError, C.ModelError, InvalidSpec):
+        raise
+    except Exception as e:  # noqa
+        tb = traceback.format_exc().strip().splitlines()
+        ctx.violation('exception:%s:%s' % (stream, type(e).__name__),
+                      'unexpected %s while evaluating a %s case: %s' % (type(e).__name__, stream, str(e)[:200]), case,
+                      dict(traceback=tb[-8:]))
+        return None
+
+
 def same_value(a, b):
     """is the value read back (a) the stored one (b): same kind, same bits"""
     ca, cb = cv(a), cv(b)
@@ -660,6 +719,10 @@ def judge_entry(ctx, path, orig, node, loaded_parent, key, case, cls):
 
 def eval_dict(ctx, scratch, value, cls, group_name='G', note=None):
     case = dict(stream='dict', cls=cls, group=group_name, value=tojson(value), note=note)
+    return _guard(ctx, 'dict', case, _eval_dict, ctx, scratch, value, cls, group_name, note, case)
+
+
+def _eval_dict(ctx, scratch, value, cls, group_name, note, case):
     toks = enc(value)
     m = ctx.model()
     d = m.call('c16.store', *toks)
@@ -693,6 +756,10 @@ def eval_dict(ctx, scratch, value, cls, group_name='G', note=None):
         ctx.violation('unsupported-silently-stored:' + str(note), 'an unsupported value was stored without an error', case)
         return
     ctx.check_eq('stored tree: HDF5 file vs Output.store', tree, m_tree, case)
+    if isinstance(loaded, ReadError):
+        ctx.violation('read-back-raises:' + type(loaded.e).__name__,
+                      'the stored dictionary cannot be decoded again (decode_string_array / h5py): %r' % (loaded.e,), case)
+        return
     ctx.check_eq('decoded content: file vs Output.load (Output.store v)', cv(loaded), m_loaded, case)
     if m_reg:
         ctx.check_eq('regular value: load(store v) = canon v (model)', m_loaded, m_canon, case)
@@ -729,8 +796,9 @@ def stream_dict(ctx, scratch):
     for cls, n in (('wf', ctx.n(200, 5000)), ('regular', ctx.n(250, 7000)), ('expansion', ctx.n(200, 5000))):
         for i in range(n):
             eval_dict(ctx, scratch, gen_dict(rng, 0, cls), cls, group_name=None if i % 5 == 0 else 'G')
-    for _ in range(ctx.n(40, 500)):
-        eval_dict(ctx, scratch, gen_k3(rng), 'k3')
+    for k in range(ctx.n(60, 1000)):
+        eval_dict(ctx, scratch, gen_k3(rng, k), 'k3')
+        ctx.bucket('dict:k3:' + K3_KINDS[k % len(K3_KINDS)])
     for _ in range(ctx.n(108, 1500)):
         v, kind = gen_error(rng)
         eval_dict(ctx, scratch, v, 'error', note=kind)
@@ -747,6 +815,11 @@ def stream_dict(ctx, scratch):
 
 # ----------------------------------------------------------------------------------------------- group stream
 def eval_group(ctx, scratch, name, value, op):
+    case = dict(stream='group', op=op, name=name, value=tojson(value))
+    return _guard(ctx, 'group', case, _eval_group, ctx, scratch, name, value, op)
+
+
+def _eval_group(ctx, scratch, name, value, op):
     """direct HDF5OutputGroup.write_array (list branch) / write_list"""
     import h5py
     from taurex.output.hdf5 import HDF5Output
@@ -812,6 +885,11 @@ def make_dummy(kwnames):
 
 
 def eval_component(ctx, scratch, typekey, ctorkw, entries):
+    case = dict(stream='component', typekey=typekey, ctorkw=ctorkw, entries=tojson(entries))
+    return _guard(ctx, 'component', case, _eval_component, ctx, scratch, typekey, ctorkw, entries)
+
+
+def _eval_component(ctx, scratch, typekey, ctorkw, entries):
     import h5py
     from taurex.output.hdf5 import HDF5Output
     from taurex.util.hdf5 import load_generic_profile_from_hdf5
@@ -931,7 +1009,14 @@ def gen_spectrum_case(rng, k):
                 enum=bool(rng.random() < 0.7))
 
 
-def eval_spectrum(ctx, scratch, c):
+def eval_spectrum(ctx, scratch, c, binner=None, whole_case=None):
+    case = whole_case if whole_case is not None else dict(c)
+    return _guard(ctx, 'spectrum', case, _eval_spectrum, ctx, scratch, c, binner, whole_case)
+
+
+def _eval_spectrum(ctx, scratch, c, binner=None, whole_case=None):
+    """`binner`: an instance that has already been used on other native grids (reuse stream); the reference for
+    every identity is always a FRESH binner built from the same bin grid"""
     from taurex import OutputSize
     wn, flux, tau = (np.asarray(c['wn'], float), np.asarray(c['flux'], float), np.asarray(c['tau'], float))
     grid = np.asarray(c['grid'], float)
@@ -939,23 +1024,33 @@ def eval_spectrum(ctx, scratch, c):
     kind, size = c['kind'], int(c['size'])
     case = dict(stream='spectrum', kind=kind, size=size, wn=wn, flux=flux, tau=tau, grid=grid, width=width,
                 enum=c.get('enum', False))
-    small = dict(stream='spectrum', kind=kind, size=size, n=len(wn), nbins=len(grid), explicit_width=width is not None)
-    binner = make_binner(kind, grid, width)
+    if whole_case is not None:
+        case = whole_case
+    reused = binner is not None
+    small = dict(stream='spectrum', kind=kind, size=size, n=len(wn), nbins=len(grid), explicit_width=width is not None,
+                 reused_binner=reused)
+
+    def fresh():
+        return make_binner(kind, grid, width)
+    if binner is None:
+        binner = fresh()
     osize = OutputSize(size) if (c.get('enum') and size in (1, 3, 6)) else size
     try:
         out = binner.generate_spectrum_output((wn, flux, tau, None), output_size=osize)
     except Exception as e:  # noqa
         ctx.violation('spectrum-output-raises:' + kind, 'generate_spectrum_output raised %r' % (e,), case)
         return None
-    ctx.case(key=('spectrum', kind, size, width is not None), sample=small, bucket='spectrum:%s:size%d' % (kind, size))
+    ctx.case(key=('spectrum', kind, size, width is not None, reused), sample=small,
+             bucket='spectrum%s:%s:size%d' % ('-reuse' if reused else '', kind, size))
     # ---- correspondence with Output.spectrumOutput (bindown results are parameters of the model)
     if kind == 'native':
         bgrid, bwidth, bdf, bdt = [], [], [], []
     else:
-        bgrid = np.asarray(binner._wngrid, float)
-        bwidth = np.asarray(binner._wngrid_width if kind == 'flux' else binner._wn_width, float)
-        bdf = np.asarray(binner.bindown(wn, flux)[1], float)
-        bdt = np.asarray(binner.bindown(wn, tau)[1], float) if size > 1 else np.zeros((0, 0))
+        ref = fresh()
+        bgrid = np.asarray(ref._wngrid, float)
+        bwidth = np.asarray(ref._wngrid_width if kind == 'flux' else ref._wn_width, float)
+        bdf = np.asarray(fresh().bindown(wn, flux)[1], float)
+        bdt = np.asarray(fresh().bindown(wn, tau)[1], float) if size > 1 else np.zeros((0, 0))
     d = ctx.model().call('c16.spectrum', C.N({'flux': 0, 'simple': 1, 'native': 2}[kind]), C.N(size), C.L(wn), C.L(flux),
                          C.LL(tau), C.L(bgrid), C.L(bwidth), C.L(bdf), C.LL(bdt))
     mod = {}
@@ -973,11 +1068,30 @@ def eval_spectrum(ctx, scratch, c):
             continue
         ctx.check_close('spectrum entry ' + k, a.ravel(), b.ravel(), case, rel=1e-12, abs_=0.0)
     # ---- the property's identities, on the produced dictionary
-    judge_spectrum(ctx, out, binner, kind, size, tau, case)
+    judge_spectrum(ctx, out, fresh, kind, size, tau, case)
+    # bin_model of the (possibly reused) instance = a fresh binner applied to the same result
+    try:
+        bm = binner.bin_model((wn, flux, tau, None))
+        rf = fresh().bindown(wn, flux)
+        for i in (0, 1, 3):
+            if (bm[i] is None) != (rf[i] is None) or (bm[i] is not None and not (
+                    np.shape(bm[i]) == np.shape(rf[i]) and C.close(np.ravel(bm[i]), np.ravel(rf[i]), rel=1e-13))):
+                ctx.violation('bin_model-not-bindown:' + kind, 'bin_model(result)[%d] is not a fresh binner applied to '
+                              'the same spectrum' % i, case)
+                break
+    except Exception as e:  # noqa
+        ctx.violation('bin_model-raises:' + kind, 'bin_model raised %r' % (e,), case)
     return out
 
 
-def judge_spectrum(ctx, out, binner, kind, size, tau, case, prefix=''):
+def judge_spectrum(ctx, out, fresh, kind, size, tau, case, prefix=''):
+    """`fresh()` builds a new binner with the bin grid of the one that produced `out`: 'the binner applied to the
+    stored native spectrum' must not depend on what the producing instance was used for before"""
+    class _B:
+        def bindown(self, *a):
+            return fresh().bindown(*a)
+    binner = _B()
+
     def bad(key, what, detail=None):
         ctx.violation(prefix + key + ':' + kind, what, case, detail)
 
@@ -1016,7 +1130,46 @@ def judge_spectrum(ctx, out, binner, kind, size, tau, case, prefix=''):
         bad('native-tau-changed', 'native_tau is not the optical depth of the model result')
 
 
+def gen_reuse_case(rng, k):
+    """one binner instance used on 2-3 different native grids of EQUAL length (linear, log / constant-R, irregular)"""
+    n = int(rng.integers(10, 50))
+    lo = float(rng.uniform(200, 2000))
+    hi = lo * float(rng.uniform(3, 15))
+    lin = np.linspace(lo, hi, n)
+    log = np.geomspace(lo, hi, n)
+    R = n / np.log(hi / lo) * float(rng.uniform(0.7, 1.0))
+    constR = lo * (1 + 1 / R) ** np.arange(n)
+    irr = np.sort(rng.uniform(lo, hi, n))
+    if np.min(np.diff(irr)) <= 0:
+        irr = np.linspace(lo * 1.01, hi * 0.99, n)
+    grids = [lin, log, constR, irr]
+    order = list(rng.permutation(4))[:int(rng.integers(2, 4))]
+    nl = int(rng.integers(1, 4))
+    natives = [dict(wn=grids[i], flux=rng.uniform(1e-4, 3e-2, n), tau=10.0 ** rng.uniform(-4, 1.5, (nl, n))) for i in order]
+    a = max(g['wn'][1] for g in natives)
+    b = min(g['wn'][-2] for g in natives)
+    nb = int(rng.integers(2, 9))
+    grid = np.linspace(a, b, nb) if rng.random() < 0.5 else np.sort(rng.uniform(a, b, nb))
+    if np.min(np.diff(grid)) <= 0:
+        grid = np.linspace(a, b, nb)
+    width = None if rng.random() < 0.5 else np.gradient(grid) * rng.uniform(0.3, 1.0, nb)
+    return dict(stream='spectrum-reuse', kind=['flux', 'simple', 'native'][k % 3], size=[6, 3, 1][(k // 3) % 3],
+                grid=grid, width=width, natives=natives, enum=True)
+
+
+def eval_spectrum_reuse(ctx, scratch, c):
+    grid = np.asarray(c['grid'], float)
+    width = None if c.get('width') is None else np.asarray(c['width'], float)
+    binner = make_binner(c['kind'], grid, width)
+    whole = dict(c)
+    for nat in c['natives']:
+        eval_spectrum(ctx, scratch, dict(c, stream='spectrum', wn=nat['wn'], flux=nat['flux'], tau=nat['tau']),
+                      binner=binner, whole_case=whole)
+
+
 def stream_spectrum(ctx, scratch):
+    for k in range(ctx.n(36, 1200)):
+        eval_spectrum_reuse(ctx, scratch, gen_reuse_case(ctx.rng, k))
     for k in range(ctx.n(216, 7200)):
         c = gen_spectrum_case(ctx.rng, k)
         out = eval_spectrum(ctx, scratch, c)
@@ -1387,6 +1540,10 @@ class LoaderProbe:
 
 
 def eval_model(ctx, scratch, spec, stream='model'):
+    return _guard(ctx, stream, dict(stream=stream, spec=spec), _eval_model, ctx, scratch, spec, stream)
+
+
+def _eval_model(ctx, scratch, spec, stream='model'):
     """returns True when the round trip was evaluated completely"""
     import h5py
     from taurex.output.hdf5 import HDF5Output
@@ -1447,7 +1604,8 @@ def eval_model(ctx, scratch, spec, stream='model'):
         stored_prof = real_load(f['Output']['Profiles'])
     top = {k: v for k, v in stored.items() if not isinstance(v, dict)}
     try:
-        judge_spectrum(ctx, top, binner, spec.get('binner', 'native'), size, np.asarray(res[2]), case, prefix='stored-')
+        judge_spectrum(ctx, top, lambda: make_binner(spec.get('binner', 'native'), bgrid, None),
+                       spec.get('binner', 'native'), size, np.asarray(res[2]), case, prefix='stored-')
     except Exception as e:  # noqa  the stored entries are not even usable as the arrays they were
         ctx.violation('stored-spectra-unusable', 'Output/Spectra cannot be checked for consistency: %r' % (e,), case)
     if not values_equal(top.get('native_spectrum'), res[1], rel=0.0) or not values_equal(top.get('native_wngrid'), res[0], rel=0.0):
@@ -1636,6 +1794,8 @@ def replay(ctx, case):
             eval_component(ctx, scratch, case['typekey'], case['ctorkw'], fromjson(case['entries']))
         elif s == 'spectrum':
             eval_spectrum(ctx, scratch, case)
+        elif s == 'spectrum-reuse':
+            eval_spectrum_reuse(ctx, scratch, case)
         elif s in ('model', 'model-special'):
             eval_model(ctx, scratch, case['spec'], stream=s)
         else:
